@@ -98,7 +98,15 @@ func fReplayBody(ff fFaults) func(h string) explore.Body {
 func init() {
 	all := fFaults{ms: true, kms: true, aead: true, alloc: true}
 	Checks["C02"] = &Check{Level: "fault_enumeration", Run: CheckF("C02", fFaults{ms: true, kms: true}), QuickBudget: 240, ThoroughBudget: 1500, ReplayBody: fReplayBody(fFaults{ms: true, kms: true})}
-	Checks["C10"] = &Check{Level: "fault_enumeration", Run: CheckF("C10", all), QuickBudget: 240, ThoroughBudget: 1500, ReplayBody: fReplayBody(all)}
+	Checks["C10"] = &Check{Level: "fault_enumeration", Run: func(r *Report) {
+		CheckF("C10", all)(r)
+		r.Rule += " || PLUS the AWS KMS plugin product of C17 (every failing-region pattern), checking that GenerateDataKey / Decrypt plaintext handed to the plugins is zero after EncryptKey / DecryptKey return"
+		n := 2
+		if r.Thorough() {
+			n = 3
+		}
+		awsSpace(r, "C10", n)
+	}, QuickBudget: 240, ThoroughBudget: 1500, ReplayBody: fReplayBody(all)}
 }
 
 func init() {
@@ -155,6 +163,10 @@ func init() {
 			}
 			return nil
 		}}
+}
+
+func init() {
+	Checks["C17"] = &Check{Level: "fault_enumeration", Run: CheckC17, QuickBudget: 240, ThoroughBudget: 1500}
 }
 
 // kReplay re-executes an operation-history counterexample of the K space.
